@@ -7,6 +7,7 @@ pub mod refeval;
 pub mod numgrid;
 pub mod progcheck;
 pub mod reflex;
+pub mod refmacro;
 pub mod refnum;
 pub mod runner;
 pub mod sut;
